@@ -425,11 +425,15 @@ static void _preextrapolate_helper(vorbis_dsp_state *v){
   int i;
   int order=16;
   float *lpc=alloca(order*sizeof(*lpc));
-  float *work=alloca(v->pcm_current*sizeof(*work));
+  float *work;
   long j;
   v->preextrapolate=1;
 
   if(v->pcm_current-v->centerW>order*2){ /* safety */
+    /* everything submitted so far, which the application decides: too
+       much for the stack */
+    work=_ogg_malloc(v->pcm_current*sizeof(*work));
+    if(!work)return;
     for(i=0;i<v->vi->channels;i++){
       /* need to run the extrapolation in reverse! */
       for(j=0;j<v->pcm_current;j++)
@@ -459,6 +463,7 @@ static void _preextrapolate_helper(vorbis_dsp_state *v){
         v->pcm[i][v->pcm_current-j-1]=work[j];
 
     }
+    _ogg_free(work);
   }
 }
 
